@@ -20,7 +20,8 @@ ASSUMPTIONS = [
     'evmap makes refreshed values visible to all readers (library contract, trusted)',
 ]
 MANIFEST = {'text': 'proof (all normal paths of the stage) of the publication typestate: no message is handed to the outflow while the lifecycle table has unpublished updates, '
-                    'and after a lifecycle is confirmed (removed from the buffered set outside a merge) no message is handed over before update+refresh.'}
+                    'and after a lifecycle is confirmed (removed from the buffered set outside a merge) no message is handed over before update+refresh.'
+                    ' Added: a message leaves the queue only when its lifecycle is known not to be buffered (hence published), and after a merge no queued message keeps the merged id; the end-of-input publication loop covers every still buffered lifecycle.'}
 
 
 def run(F, chk):
